@@ -47,6 +47,37 @@ Proof.
   apply (scroll_one_fault id a b d r acc rc). apply IH. exact H.
 Qed.
 
+(* arithmetic of the vacated strips *)
+Lemma scroll_out_cases rc q d r :
+  cell_in rc q -> ~ cell_in rc (fst q + d, snd q + r) ->
+  (d > 0 /\ bottom rc <= fst q + d) \/ (d < 0 /\ fst q + d < top rc) \/
+  (r > 0 /\ right rc <= snd q + r) \/ (r < 0 /\ snd q + r < left rc).
+Proof. unfold cell_in, bottom, right; cbn [fst snd]. lia. Qed.
+
+Lemma strip_d_pos rc a b d q :
+  cell_in rc q -> d > 0 -> bottom rc <= fst q + d ->
+  cell_in (mkRect (bottom (r_translate rc (- a) (- b)) - d) (left (r_translate rc (- a) (- b))) d (cols rc))
+          (fst q - a, snd q - b).
+Proof. unfold cell_in, r_translate, bottom, right; cbn [top left lines cols fst snd]. lia. Qed.
+
+Lemma strip_d_neg rc a b d q :
+  cell_in rc q -> d < 0 -> fst q + d < top rc ->
+  cell_in (mkRect (top (r_translate rc (- a) (- b))) (left (r_translate rc (- a) (- b))) (- d) (cols rc))
+          (fst q - a, snd q - b).
+Proof. unfold cell_in, r_translate, bottom, right; cbn [top left lines cols fst snd]. lia. Qed.
+
+Lemma strip_r_pos rc a b r q :
+  cell_in rc q -> r > 0 -> right rc <= snd q + r ->
+  cell_in (mkRect (top (r_translate rc (- a) (- b))) (right (r_translate rc (- a) (- b)) - r) (lines rc) r)
+          (fst q - a, snd q - b).
+Proof. unfold cell_in, r_translate, bottom, right; cbn [top left lines cols fst snd]. lia. Qed.
+
+Lemma strip_r_neg rc a b r q :
+  cell_in rc q -> r < 0 -> snd q + r < left rc ->
+  cell_in (mkRect (top (r_translate rc (- a) (- b))) (left (r_translate rc (- a) (- b))) (lines rc) (- r))
+          (fst q - a, snd q - b).
+Proof. unfold cell_in, r_translate, bottom, right; cbn [top left lines cols fst snd]. lia. Qed.
+
 Section scroll_fold.
   Variables (T : wtree) (id : Z) (a b d r : Z) (L C : Z).
 
@@ -182,19 +213,16 @@ Section scroll_fold.
           -- left.
              assert (Hout : ~ cell_in rc (fst q + d, snd q + r)).
              { intros Hc. apply cell_inb_iff in Hc. congruence. }
-             assert (Hcase : (d > 0 /\ bottom rc <= fst q + d) \/ (d < 0 /\ fst q + d < top rc) \/
-                             (r > 0 /\ right rc <= snd q + r) \/ (r < 0 /\ snd q + r < left rc)).
-             { unfold cell_in, bottom, right in *; cbn [fst snd] in *. lia. }
-             assert (Hqo : cell_in orig (fst q - a, snd q - b)) by (apply Horig; exact Hq).
+             pose proof (scroll_out_cases rc q d r Hq Hout) as Hcase.
              destruct Hcase as [[H1 H2]|[[H1 H2]|[[H1 H2]|[H1 H2]]]].
-             ++ apply (de_cov _ _ Hde3). apply (Hcov2 q HqV). left. split; [lia|].
-                unfold orig, cell_in, r_translate, bottom, right in *; cbn [top left lines cols fst snd] in *. lia.
-             ++ apply (de_cov _ _ Hde3). apply (Hcov2 q HqV). right. split; [lia|]. split; [lia|].
-                unfold orig, cell_in, r_translate, bottom, right in *; cbn [top left lines cols fst snd] in *. lia.
-             ++ apply (Hcov3 q HqV). left. split; [lia|].
-                unfold orig, cell_in, r_translate, bottom, right in *; cbn [top left lines cols fst snd] in *. lia.
-             ++ apply (Hcov3 q HqV). right. split; [lia|]. split; [lia|].
-                unfold orig, cell_in, r_translate, bottom, right in *; cbn [top left lines cols fst snd] in *. lia.
+             ++ apply (de_cov _ _ Hde3). apply (Hcov2 q HqV). left.
+                split; [clear - H1; lia|]. apply strip_d_pos; assumption.
+             ++ apply (de_cov _ _ Hde3). apply (Hcov2 q HqV). right.
+                split; [clear - H1; lia|]. split; [clear - H1; lia|]. apply strip_d_neg; assumption.
+             ++ apply (Hcov3 q HqV). left.
+                split; [clear - H1; lia|]. apply strip_r_pos; assumption.
+             ++ apply (Hcov3 q HqV). right.
+                split; [clear - H1; lia|]. split; [clear - H1; lia|]. apply strip_r_neg; assumption.
       + (* refused: the whole rectangle is exposed *)
         injection H as <- <- <- <-.
         destruct (Hexp st1 orig Gt1 Hdne Hf) as [Hde Hcov].
